@@ -67,6 +67,26 @@ fn run_job(ctx: &mut Context, job: &Value) -> Value {
         let back = parse_expr(&mut it);
         return json!({"printed": text(&printed), "same": back == e, "back": expr_json(&back), "orig": expr_json(&e)});
     }
+    if let Some(t) = job["rt"].as_str() {
+        // C11: parse, print, re-parse; and the serde exchange form of a definition
+        let mut it = TokenIterator::new(t).peekable();
+        let e = parse_expr(&mut it);
+        let printed = e.to_string();
+        let mut it2 = TokenIterator::new(&printed).peekable();
+        let back = parse_expr(&mut it2);
+        let entry = rink_core::ast::DefEntry::new_unit("x", None, None, e.clone());
+        let serde = match serde_json::to_string(&entry) {
+            Ok(js) => match serde_json::from_str::<rink_core::ast::DefEntry>(&js) {
+                Ok(d) => match &*d.def {
+                    rink_core::ast::Def::Unit { expr } => if expr.0 == e { "ok" } else { "diff" },
+                    _ => "diff",
+                },
+                Err(_) => "err",
+            },
+            Err(_) => "err",
+        };
+        return json!({"q": text(t), "ast": expr_json(&e), "printed": text(&printed), "same": back == e, "serde": serde});
+    }
     if job["lookup"].is_array() {
         // C07: Context::lookup / canonicalize of a name
         let name = untext(&job["lookup"]);
